@@ -1,9 +1,9 @@
 From PGF Require Import Base.Prelude Base.PyStr Model.ProteinGroups Model.Scoring Model.Quant.
 
-Definition precT := (str * list str * Z * str * option Q * option Q * list Q * Z)%type.
+Definition precT := (str * list str * Z * str * option Q * option Q * list Q * list Q * Z)%type.
 Definition mk_prec (t : precT) : prec :=
-  let '(pe, pr, ch, ex, it, pp, si, id) := t in
-  {| p_peptide := pe; p_proteins := pr; p_charge := ch; p_exp := ex; p_intensity := it; p_pep := pp; p_silac := si; p_id := id |}.
+  let '(pe, pr, ch, ex, it, pp, si, tm, id) := t in
+  {| p_peptide := pe; p_proteins := pr; p_charge := ch; p_exp := ex; p_intensity := it; p_pep := pp; p_silac := si; p_tmt := tm; p_id := id |}.
 Definition qrowT := (list str * list nat * list str * Q * list Q * list nat * Q * list Q * list Z)%type.
 Definition qrow_tuple (r : qrow) : qrowT :=
   (q_ids r, q_unique r, q_idtype r, q_total r, q_ints r, q_ntheo r, q_ibaq_total r, q_ibaq r, q_evidence r).
@@ -20,3 +20,14 @@ Definition run12 (c : c12_in) : c12_out :=
   | Raise x => Raise x
   end.
 Definition chk12 (c : c12_in * c12_out) : bool := eqb (run12 (fst c)) (snd c).
+
+(* TMT reporter cells: (input, number of reporter columns per experiment) against the cells of every written row *)
+Definition run12t (c : c12_in * nat) : list (list Q) :=
+  let '(ibaq, cuts, ns, groups, rows) := fst c in
+  quantify_tmt (tab_cut cuts) (snd c) groups (map mk_prec rows).
+(* None: the implementation raised (a protein missing from the iBAQ table): the model of the other columns must raise as well *)
+Definition chk12t (c : (c12_in * nat) * option (list (list Q))) : bool :=
+  match snd c with
+  | Some cells => eqb (run12t (fst c)) cells
+  | None => match run12 (fst (fst c)) with Raise _ => true | Ok _ => false end
+  end.
